@@ -1,6 +1,77 @@
 package driver
 
-// historyOracle is filled in with the register machine (see history_impl).
+import (
+	"bytes"
+	"encoding/json"
+	"fmt"
+	"os"
+	"os/exec"
+	"path/filepath"
+	"strings"
+
+	"apdsim/plan"
+)
+
+// historyOracle is the cross-process half of C06 ("independent of every
+// operation executed earlier in the process"): one worker executes a batch of
+// register-machine runs and logs every clean-room evaluation (inputs and
+// outcome); fresh processes then re-evaluate the log in shuffled orders. A
+// record that gives another outcome there depends on hidden process state.
 func historyOracle(cfg *config) ([]failure, []string, map[string]interface{}) {
-	return nil, nil, map[string]interface{}{"status": "not built yet"}
+	st := map[string]interface{}{}
+	var infra []string
+	var fails []failure
+	v := cfg.variants[0]
+	runs := 48
+	shuffles := 2
+	if cfg.tier == "thorough" {
+		runs = 400
+		shuffles = 4
+	}
+	log := filepath.Join(cfg.tmp, "history.jsonl")
+	os.Remove(log)
+	seed := plan.Derive(cfg.seed, 606, 1)
+	cmd := exec.Command(v.Bin(false), "worker", "-wl", "reg", "-mode", "c06", "-seed", fmt.Sprint(seed), "-from", "0", "-to", fmt.Sprint(runs), "-tier", cfg.tier, "-histlog", log)
+	cmd.Env = append(os.Environ(), "GOMAXPROCS=1")
+	if b, err := cmd.CombinedOutput(); err != nil {
+		return nil, []string{fmt.Sprintf("history oracle: logging worker failed: %v: %s", err, trim(string(b), 1000))}, st
+	}
+	total := 0
+	job := &Job{Name: "c06-cross-process-history", Variant: v, WL: "reg", Mode: "c06", Seed: seed}
+	for i := 0; i < shuffles; i++ {
+		cmd := exec.Command(v.Bin(false), "rehist", "-in", log, "-seed", fmt.Sprint(plan.Derive(seed, uint64(i), 2)))
+		cmd.Env = append(os.Environ(), "GOMAXPROCS=1")
+		var out, errb bytes.Buffer
+		cmd.Stdout = &out
+		cmd.Stderr = &errb
+		if err := cmd.Run(); err != nil {
+			infra = append(infra, fmt.Sprintf("history oracle: re-evaluation failed: %v: %s", err, trim(errb.String(), 1000)))
+			continue
+		}
+		for _, line := range strings.Split(out.String(), "\n") {
+			if !strings.HasPrefix(line, "END ") {
+				continue
+			}
+			var r plan.Result
+			if json.Unmarshal([]byte(line[6:]), &r) != nil {
+				infra = append(infra, "history oracle: unparsable result")
+				continue
+			}
+			total += int(r.Stats["records"])
+			for _, vv := range r.Violations {
+				// the "plan" of such a finding is the history log itself; keep a copy
+				keep := filepath.Join(cfg.replays, fmt.Sprintf("C06-history-%d.jsonl", seed))
+				if b, err := os.ReadFile(log); err == nil {
+					os.MkdirAll(cfg.replays, 0o755)
+					os.WriteFile(keep, b, 0o644)
+				}
+				vv.Detail += "\n  history log: " + keep
+				fails = append(fails, failure{job: job, run: uint64(i), viol: vv, replayPath: keep})
+			}
+		}
+	}
+	st["runs_logged"] = runs
+	st["records_reevaluated"] = total
+	st["fresh_processes"] = shuffles
+	return fails, infra, st
 }
